@@ -19,7 +19,7 @@ prop('C09', bounded=['histories'], explanation='functional postconditions of the
 prop('C10', bounded=['histories'], explanation='back-pointer and container-consistency postconditions of the attach path')
 prop('C11', bounded=['histories'], explanation='frame clauses of the read paths and the traversal (temporary parent) path')
 prop('C12', bounded=['histories'], explanation='exceptional postconditions (raises => view unchanged) of the mutators')
-prop('C13', ground=['astpass:c19_ownership'], bounded=['datatypes'], explanation='contracts on the format-selection helpers')
+prop('C13', ground=['astpass:c19_ownership'], bounded=['datatypes'], also=['C05'], explanation='contracts on the format-selection helpers')
 prop('C14', bounded=['names'], explanation='contracts on name resolution (find_child_reference interface, _find_name, child_at_index)')
 prop('C15', bounded=['robust'], explanation='raises clauses: only declared exception classes escape the header functions')
 
@@ -37,7 +37,7 @@ prop('C06', bounded=['textual'],
                  'bound; delimiter-safety, idempotence and tokenisation checked on every string')
 prop('C03', ground=['astpass:c17_forwarding'], bounded=['roundtrip'], explanation='end-to-end: same segments, same order, same leaves (bounded round-trip driver)')
 
-prop('C05', ground=['astpass:c17_forwarding'], bounded=['validation_d', 'histories', 'datatypes'],
+prop('C05', ground=['astpass:c17_forwarding'], bounded=['validation_d', 'histories', 'datatypes'], also=['C13'],
      explanation='STRICT admission checks of the attach path under contract (cardinality, level, version); STRICT-built '
                  'instances validated, STRICT / TOLERANT lockstep in the bounded drivers')
 prop('C18', ground=['astpass:c17_forwarding'], bounded=['validation_d'],
